@@ -762,7 +762,15 @@ class StateEngine(object):
                 """
                 for results in all_results.values():
                     if "terminated" not in results:
-                        results["terminated"] = "0:" + str(len(results["results"]))
+                        """
+                        Only the iterations that were launched can still report:
+                        for a Map state with MaxConcurrency those up to the end
+                        of its latest block.
+                        """
+                        launched = results.get("range", ":").split(":")[1]
+                        results["terminated"] = "0:" + (
+                            launched or str(len(results["results"]))
+                        )
                 self.check_pending_results(execution_arn)
             else:
                 """
@@ -1170,6 +1178,13 @@ class StateEngine(object):
                     "state": [None]*length,
                     "parent": enclosing_branch_id(branch_info_stack),
                 }
+
+            """
+            The block of iterations that a Map state with MaxConcurrency has
+            launched most recently: the iterations after it do not exist yet.
+            """
+            if "Range" in branch_info and "Index" in branch_info:
+                all_branch_results[current_id]["range"] = branch_info["Range"]
 
             # Get the branch results for current execution and current state
             branch_results = all_branch_results[current_id]
@@ -3329,6 +3344,8 @@ class StateEngine(object):
                     "state": [None]*length,
                     "parent": enclosing_branch_id(context_state["Branch"]),
                 }
+                if "Range" in branch_info:
+                    all_branch_results[current_id]["range"] = branch_info["Range"]
 
             """
             Record the raw result for this branch, which will eventually be used
@@ -3384,6 +3401,7 @@ class StateEngine(object):
                             "Range": str(end) + ":" + 
                                      str(min(end + max_concurrency, len(result))),
                         }
+                        branch_results["range"] = context_state["Branch"][-1]["Range"]
 
                         # The Map state's own retry fields, not those that the
                         # last state of the iteration happened to have.
